@@ -4,7 +4,7 @@ set -u
 PATCH=$1; shift
 cd /repo || exit 2
 if ! git diff --quiet; then echo "/repo not clean"; exit 2; fi
-git apply "$PATCH" || exit 2
+git apply --recount "$PATCH" || exit 2
 mkdir -p /tmp/try_verif_$$ && cp /verif/known_findings.json /tmp/try_verif_$$/
 for P in "$@"; do
   /verif/bin/mrocheck -property $P -verif /tmp/try_verif_$$ 2>&1 | grep -v '^WARNING' | grep -v '^VIOLATION property' | grep 'VIOLATION\|UNDECIDED\|^property=' | cut -c1-${WIDTH:-420}
